@@ -22,7 +22,7 @@ for spec in "$@"; do
   ( cd /repo && patch -s -p1 < /verif/seeded/$seed/patch.diff ) || { echo "{\"seed\":\"$seed\",\"error\":\"patch does not apply\"}" >> $L/results.jsonl; continue; }
   for chk in "$@"; do
     t0=$(date +%s)
-    ./check $chk > $L/$seed.$chk.log 2>&1
+    ./check $chk ${CASES:+--cases $CASES} > $L/$seed.$chk.log 2>&1
     ex=$?
     t1=$(date +%s)
     python3 - "$seed" "$chk" "$ex" "$((t1-t0))" <<'PY' >> $L/results.jsonl
